@@ -45,3 +45,148 @@ def run(S, seed=None):
             {"homogeneous": S._run_0D, "spatial_1D": S._run_1D, "spatial_2D": S._run_2D}[d](seed=seed)
             S._simulationStatus = 1
     return time.time() - t0
+
+
+# ---- observation of a finished run --------------------------------------------------------------------------
+from common import fhex, coq_list, coq_bool
+
+
+def p1d_text(S, dt):
+    """the parameter record of model/Sn1D.v, computed exactly as snowing.py does"""
+    c = S.const
+    lam0 = c["solid_fraction"] * c["lambda_s"] + (1 - c["solid_fraction"]) * c["lambda_w"] if "lambda_s" in c else 0.0
+    alpha0 = lam0 / (c["cp_solution"] * c["rho_l"])
+    Tm = c["T_eq"] + 273.15
+    vals = [c["height"] / 30, dt, S.k["s0"], lam0, alpha0, c["cp_s"], c["cp_i"], c["cp_w"], c["solid_fraction"],
+            c.get("lambda_i", 0.0), c.get("lambda_w", 0.0), c["Dh"], c["k_f"], c["M_s"], c["rho_l"], c["V"], c["mass"], c["mass_water"], c["mass_solute"],
+            Tm, Tm - c["depression"], c["cp_solution"]]
+    return "(MkP1 %s)" % " ".join(fhex(v) for v in vals)
+
+
+def split_run(S, dt):
+    """indices of the saved rows: cooling rows 0..i_end, nucleation row i_end+1, solidification rows from i_end+2 (every step saved)"""
+    t = np.asarray(S.time) * 3600.0
+    dup = np.nonzero(np.isclose(np.diff(t), 0.0, atol=dt * 1e-6))[0]
+    if len(dup) < 1:
+        return None
+    return int(dup[0])
+
+
+def flist(v):
+    return coq_list(fhex(float(x)) for x in np.ravel(v))
+
+
+def flux_at(S, T_top_K, liquid):
+    """evaporative vapour flux the 1D loop would compute for the top temperature (VISF only)"""
+    import ethz_snow.utils as U
+    c = S.const
+    if c["configuration"] != "VISF":
+        return 0.0
+    p = U.vapour_pressure_liquid(T_top_K) if liquid else U.vapour_pressure_solid(T_top_K)
+    return float(U.vapour_flux(c["kappa"], c["m_water"], c["k_B"], c["p_vac"], p, T_top_K, T_top_K))
+
+
+def sn1d_case(S, dt, rng, ncool=25, nsolid=25):
+    """Coq text of one sn1d_case_ok case built from the saved fields of a finished 1D run (every step saved)."""
+    c = S.const
+    T = np.asarray(S.temp) + 273.15
+    W = np.asarray(S.iceMassFraction)
+    sh = np.asarray(S.shelfTemp) + 273.15
+    t = np.asarray(S.time) * 3600.0
+    ie = split_run(S, dt)
+    visf = c["configuration"] == "VISF"
+    ts, td, dHe = (c["t_vac_start"], c["t_vac_duration"], c["Dh_evaporation"]) if visf else (0.0, 0.0, 0.0)
+    T0 = np.full(T.shape[1], S.opcond.cooling["start"] + 273.15)
+    cools = ["(%s, %s, %s, %s, %s)" % (flist(T0), fhex(sh[0]), fhex(0.0), fhex(flux_at(S, T0[-1], True)), flist(T[0]))]
+    ks = sorted(set(rng.sample(range(ie), min(ie, ncool)) + [ie - 1])) if ie > 0 else []
+    if visf:   # make sure steps inside the vacuum window are among the sampled ones
+        inw = [k for k in range(ie) if ts * 3600 < t[k + 1] < (ts + td) * 3600]
+        ks = sorted(set(ks + inw[:8] + inw[-4:]))
+    for k in ks:
+        cools.append("(%s, %s, %s, %s, %s)" % (flist(T[k]), fhex(sh[k + 1]), fhex(t[k + 1]), fhex(flux_at(S, T[k][-1], True)), flist(T[k + 1])))
+    nucs = ["(%s, %s, %s)" % (flist(T[ie]), flist(T[ie + 1]), flist(W[ie + 1]))]
+    ns = T.shape[0] - (ie + 2)
+    js = sorted(set(rng.sample(range(ns), min(ns, nsolid)) + [0])) if ns > 0 else []
+    if visf:
+        inw = [j for j in range(ns) if ts * 3600 < t[ie + 2 + j] < (ts + td) * 3600]
+        js = sorted(set(js + inw[:8] + inw[-4:]))
+    solids = []
+    for j in js:
+        a, b = ie + 1 + j, ie + 2 + j
+        solids.append("(%s, %s, %s, %s, %s, %s, %s)" % (flist(T[a]), flist(W[a]), fhex(sh[b]), fhex(t[b]), fhex(flux_at(S, T[a][-1], False)), flist(T[b]), flist(W[b])))
+    return "(%s, %s, %s, %s, %s, %s, %s, %s)" % (p1d_text(S, dt), coq_bool(visf), fhex(ts), fhex(td), fhex(dHe), coq_list(cools), coq_list(nucs), coq_list(solids)), \
+        dict(i_end=ie, cooling_steps_checked=len(cools), solid_steps_checked=len(solids))
+
+
+def sn0d_case(S, rng, n=40):
+    c = S.const
+    dt = 0.1
+    T = np.asarray(S.temp) + 273.15
+    W = np.asarray(S.iceMassFraction)
+    sh = np.asarray(S.shelfTemp) + 273.15
+    t_nuc = float(S.results["t_nuc"].iloc[0]) * 60.0
+    ie = int(round(t_nuc / dt))        # Nt_cool_end: rows 0..ie-1 cooling, row ie = first solid row
+    T0 = S.opcond.cooling["start"] + 273.15
+    cools = ["(%s, %s, %s)" % (fhex(T0), fhex(sh[0]), fhex(T[0]))]
+    for k in sorted(rng.sample(range(max(ie - 1, 1)), min(max(ie - 1, 1), n))):
+        if k + 1 < ie:
+            cools.append("(%s, %s, %s)" % (fhex(T[k]), fhex(sh[k + 1]), fhex(T[k + 1])))
+    # nucleation temperature = T after the step ie (not stored in temp); it is reported as T_nuc
+    Tn = float(S.results["T_nuc"].iloc[0]) + 273.15
+    solids = []
+    ns = len(T) - ie
+    for j in sorted(rng.sample(range(1, ns), min(ns - 1, n))):
+        a, b = ie + j - 1, ie + j
+        solids.append("(%s, %s, %s, %s, %s)" % (fhex(T[a]), fhex(W[a]), fhex(sh[b]), fhex(T[b]), fhex(W[b])))
+    A = c["A"]
+    nucs = ["(%s, %s, %s, %s)" % (fhex(Tn), fhex(sh[ie]), fhex(T[ie]), fhex(W[ie]))]
+    return "(%s, %s, %s, %s, %s)" % (p1d_text(S, dt), fhex(A), coq_list(cools), coq_list(nucs), coq_list(solids)), dict(i_end=ie, Tn=Tn)
+
+
+# ---- a small catalogue of runs per tier -------------------------------------------------------------------
+def catalogue(rng, tier, dims=("homogeneous", "spatial_1D", "spatial_2D"), confs=None, cn=False, n0=4, n1=3, n2=1):
+    """yield dict(label, S, dt, nsteps, error) for randomly drawn configurations that keep <= 10000 steps
+    (so that the spatial models save every step)"""
+    out = []
+    plan = []
+    if "homogeneous" in dims:
+        plan += [("homogeneous", "shelf")] * n0
+    if "spatial_1D" in dims:
+        plan += [("spatial_1D", c) for c in (confs or ["shelf", "VISF", "shelf"])[:n1]]
+    if "spatial_2D" in dims:
+        plan += [("spatial_2D", c) for c in (confs or ["shelf", "jacket", "VISF"])[:n2]]
+    for dim, conf in plan:
+        if dim == "homogeneous":
+            h, d, K = rng.choice([0.01, 0.02]), 0.01, rng.choice([20, 50, 100])
+            tt = rng.choice([1.5, 2.0, 3.0]) * 3600
+            over = {"vial": {"geometry": {"length": rng.choice([0.01, 0.015]), "width": 0.01}}}
+        elif dim == "spatial_1D":
+            h, d, K = rng.choice([0.04, 0.05, 0.06]), 0.05, rng.choice([150, 200, 400])
+            tt = None
+            over = {}
+        else:
+            h = rng.choice([0.05, 0.06]); d = rng.choice([0.08, 0.12, 0.2]); K = rng.choice([200, 400])
+            tt = None
+            over = {}
+        start = rng.choice([20, 10, 5]); end = rng.choice([-50, -45, -60])
+        holds = [] if rng.random() < 0.5 else [{"duration": rng.choice([300, 900, 1800]), "temp": rng.choice([-5, -8, -10])}]
+        prog = dict(start=start, end=end, rate=rng.choice([1.0, 2.0]) / 60, holds=holds, t_tot=tt or 3600.0, dt=1.0)
+        if conf == "VISF":
+            over["VISF"] = {"t_vac_start": rng.choice([0.2, 0.4, 0.6]), "t_vac_duration": rng.choice([0.05, 0.1, 0.3]), "kappa": rng.choice([0.01, 0.05])}
+        if rng.random() < 0.4:
+            over.setdefault("solution", {})["solid_fraction"] = rng.choice([0.02, 0.05, 0.1])
+        cnT = rng.choice([-4, -6, -8]) if cn else None
+        S = make(dim=dim, conf=conf, height=h, diameter=d, K=K, prog=prog, cnTemp=cnT, extra=over)
+        if tt is None:
+            dt, _ = step_info(S)
+            prog["t_tot"] = float(int(dt * rng.choice([9000, 9500, 9900])))
+            S = make(dim=dim, conf=conf, height=h, diameter=d, K=K, prog=prog, cnTemp=cnT, extra=over)
+        dt, n = step_info(S)
+        rec = dict(label="%s/%s h=%g d=%g K=%g %s cn=%r" % (dim, conf, h, d, K, {k: prog[k] for k in ("start", "end", "rate", "holds", "t_tot")}, cnT),
+                   dim=dim, conf=conf, S=S, dt=dt, nsteps=n, prog=prog, cnTemp=cnT, over=over, height=h, diameter=d, K=K, error=None)
+        try:
+            rec["wall"] = run(S)
+        except Exception as e:
+            rec["error"] = e
+        out.append(rec)
+    return out
